@@ -1,4 +1,5 @@
 import Saito.Lemmas.ChainState
+import Saito.Lemmas.LoopRefine
 /-!
 # C03 — ledger state equals a replay of the longest chain
 Theorems over the chain model (`Saito/Model/Chain.lean`, tied to `Blockchain::add_block` by the `chain`
@@ -32,6 +33,60 @@ theorem reorg_success_ledger (fl : Flags) (newC oldC : List Nat) (st st' : State
     SameSet st'.utxo (replay (P ++ (blocksOf st newC).reverse)) := by
   rw [reorgFixed_success_utxo fl newC oldC st st' h]
   exact reorg_replay P _ _ st.utxo hu hc
+
+/-! ### the same for the repaired LOOP (what `validate` runs), via the refinement `runWRF_refines` -/
+
+/-- C03 for the repaired Wind/Unwind loop itself: if the loop (started as `Blockchain::validate` starts it, with
+    at least the fuel `validate` gives it, every hash of both chains in the store) returns `true`, and the
+    ledger was the replay of the current chain `P ++ O`, then afterwards it is the replay of `P ++ N` — for
+    every flag setting, fork shape, segment length and validity pattern.  No hypothesis about validity is
+    needed for this direction. -/
+theorem loop_reorg_success_ledger (fl : Flags) (newC oldC : List Nat) (st st' : State) (P : List ABlock)
+    (fuel : Nat) (hfuel : 2 * (newC.length + oldC.length) + 4 ≤ fuel)
+    (hne : newC ≠ []) (hres : ∀ h ∈ newC ++ oldC, (blkOf st h).isSome)
+    (h : runWRF fl newC oldC fuel st (startWRF newC oldC) = some (st', true))
+    (hu : SameSet st.utxo (replay (P ++ (blocksOf st oldC).reverse)))
+    (hc : CleanSeg (replay P) (blocksOf st oldC).reverse) :
+    SameSet st'.utxo (replay (P ++ (blocksOf st newC).reverse)) := by
+  rw [runWRF_refines fl st newC oldC hne hres fuel hfuel] at h
+  rw [reorgSpec_success_utxo _ _ _ st st' (Option.some.inj h)]
+  simpa using reorg_replay P _ _ st.utxo hu hc
+
+/-- … and the invariant is re-established for the next reorganisation: if validity checks the inputs in the
+    states the winding visits (`InsChecked`; see `insChecked_after_unwind` for when `validB` does) and the
+    candidate's outputs are fresh, the new segment was wound cleanly on top of `P`. -/
+theorem loop_reorg_success_clean (fl : Flags) (newC oldC : List Nat) (st st' : State) (P : List ABlock)
+    (fuel : Nat) (hfuel : 2 * (newC.length + oldC.length) + 4 ≤ fuel)
+    (hne : newC ≠ []) (hres : ∀ h ∈ newC ++ oldC, (blkOf st h).isSome)
+    (h : runWRF fl newC oldC fuel st (startWRF newC oldC) = some (st', true))
+    (hu : SameSet st.utxo (replay (P ++ (blocksOf st oldC).reverse)))
+    (hc : CleanSeg (replay P) (blocksOf st oldC).reverse)
+    (hins : InsChecked (validB fl) ((blocksOf st oldC).foldl unwindBlock st) (blocksOf st newC).reverse)
+    (hfresh : FreshSeg (unwindSeg st.utxo (blocksOf st oldC).reverse) (blocksOf st newC).reverse) :
+    CleanSeg (replay P) (blocksOf st newC).reverse := by
+  rw [runWRF_refines fl st newC oldC hne hres fuel hfuel] at h
+  have hcl := reorgSpec_success_clean _ _ _ st st' (Option.some.inj h) hins hfresh
+  have h0 : replay (P ++ (blocksOf st oldC).reverse) = replayFrom (replay P) (blocksOf st oldC).reverse := by
+    simp [replay, replayFrom, List.foldl_append]
+  rw [h0] at hu
+  exact CleanSeg_congr _ ((unwindSeg_congr _ hu).trans (unwindSeg_replayFrom (replay P) _ hc)) hcl
+
+/-- the same at the level of `Blockchain::validate` (flag `windFailureRestores` on) -/
+theorem validate_reorg_success_ledger (fl : Flags) (hf : fl.windFailureRestores = true)
+    (newC oldC : List Nat) (st st' : State) (P : List ABlock)
+    (hres : ∀ h ∈ newC ++ oldC, (blkOf st h).isSome)
+    (h : validate fl st newC oldC = some (st', true))
+    (hu : SameSet st.utxo (replay (P ++ (blocksOf st oldC).reverse)))
+    (hc : CleanSeg (replay P) (blocksOf st oldC).reverse) :
+    SameSet st'.utxo (replay (P ++ (blocksOf st newC).reverse)) := by
+  obtain ⟨r, hr, hcase⟩ := validate_refines fl hf st newC oldC hres
+  rw [hr] at h
+  have hr' : r = (st', true) := Option.some.inj h
+  rcases hcase with h1 | h1
+  · rw [hr'] at h1; simp at h1
+  · rw [hr'] at h1
+    rw [reorgSpec_success_utxo _ _ _ st st' h1.symm]
+    simpa using reorg_replay P _ _ st.utxo hu hc
 
 /-- the by-height index entry: deleting the block that was just added restores the ring item (repaired
     `RingItem::delete_block`), provided the item's on-chain mark is in range -/
